@@ -138,7 +138,7 @@ REGISTRY = {
         "trusted_base": COMMON_TRUST, "assumptions": [EXTERNAL, "actual rayon scheduling and DashMap interleavings are sampled by the matrix, not proved"],
     },
     "C06": {
-        "level": "proof", "modules": ["SkaModel.Props.C06"], "gen": ["C06"], "cli": [cli.make_hist_cli("C06", 40, 400)],
+        "level": "proof", "modules": ["SkaModel.Props.C06"], "gen": ["C06"], "cli": [cli.make_hist_cli("C06", 40, 400), cli.freq_sweep_cli],
         "rule": "random tables (1-12 samples, 0-13 rows, bases/gaps/ambiguity codes at several densities) x align observers over all four site filters, all flag combinations, thresholds 0..n, run through generic_modes::align with save/reload; non-trivial = distinct case lines with at least one emitted column",
         "trusted_base": COMMON_TRUST, "assumptions": [EXTERNAL, "the float expression ceil(n*min_freq) is glue: thresholds are passed as min_freq=(t-1/2)/n"],
     },
@@ -153,7 +153,7 @@ REGISTRY = {
         "trusted_base": COMMON_TRUST, "assumptions": [EXTERNAL],
     },
     "C09": {
-        "level": "proof", "modules": ["SkaModel.Props.C09"], "gen": [], "cli": [cli.c09_cli, cli.make_map_cli("C09", 24, 200), cli.make_hist_cli("C09", 30, 300, gen_prop="C10")],
+        "level": "proof", "modules": ["SkaModel.Props.C09"], "gen": [], "cli": [cli.c09_cli, cli.make_map_cli("C09", 24, 200), cli.make_hist_cli("C09", 30, 300, gen_prop="C10"), cli.route_cli],
         "rule": "random tables for all 30 k x both widths (0-200 rows, 1-5 samples, all stored symbols; k>=33 families whose k-mers all fit in 64 bits; thorough: thousands of k-mers over several compression frames): saved by the real code, raw CBOR decoded + re-encoded by the model byte for byte; CLI merge in both orders and map/weed/nk/distance/align on 64-bit-fitting k>=33 files; non-trivial = tables with at least one k-mer",
         "trusted_base": COMMON_TRUST, "assumptions": [EXTERNAL, "Snappy compression (write side) and serde derive are exercised, not modelled"],
     },
@@ -191,12 +191,12 @@ REGISTRY = {
         "trusted_base": COMMON_TRUST, "assumptions": [EXTERNAL],
     },
     "C13": {
-        "level": "proof", "modules": ["SkaModel.Props.C13", "SkaModel.Props.EndToEnd"], "gen": ["C13"], "cli": [cli.make_hist_cli("C13", 40, 400)],
+        "level": "proof", "modules": ["SkaModel.Props.C13", "SkaModel.Props.EndToEnd"], "gen": ["C13"], "cli": [cli.make_hist_cli("C13", 40, 400), cli.freq_sweep_cli],
         "rule": "tables x weed record sets that hit a random subset of rows on either strand (with N, noise, several records), forward, reverse and twice; non-trivial = distinct case lines where weeding removed or kept at least one k-mer",
         "trusted_base": COMMON_TRUST, "assumptions": [EXTERNAL],
     },
     "C14": {
-        "level": "proof", "modules": ["SkaModel.Props.C14"], "gen": ["C14"], "cli": [cli.make_hist_cli("C14", 40, 400)],
+        "level": "proof", "modules": ["SkaModel.Props.C14"], "gen": ["C14"], "cli": [cli.make_hist_cli("C14", 40, 400), cli.freq_sweep_cli],
         "rule": "tables of 2-12 samples (unambiguous, 1 in 4 with ambiguity codes for the model comparison), any missingness; distance with thresholds 0..n, with and without --allow-ambiguous, plus MergeSkaArray::distance with a given constant; integers exact (36 x distance), proportions to 2e-5 / 2e-9; non-trivial = all",
         "trusted_base": COMMON_TRUST, "assumptions": [EXTERNAL, "f64 evaluation and the printed rounding (.2/.5) are outside the model; compared with tolerance"],
     },
